@@ -247,6 +247,15 @@ func (pids *pids) doInitProducerID(creq *clientReq) kmsg.Response {
 		return resp
 	}
 
+	// A new incarnation of a transactional ID fences the previous one:
+	// as in the KIP-360 branch above, the previous incarnation's in-flight
+	// transaction is aborted (inline, kfake is synchronous) before the
+	// epoch is bumped. Otherwise the new incarnation's produces join that
+	// transaction and its EndTxn commits the fenced producer's records.
+	if prev := pids.byTxid[*req.TransactionalID]; prev != nil && prev.inTx {
+		prev.endTx(false)
+	}
+
 	// New transactional ID or first init. Check if an expired txid is
 	// being re-used - the create path handles this via byTxid.
 	id, epoch := pids.create(req.TransactionalID, req.TransactionTimeoutMillis)
